@@ -741,6 +741,19 @@ func init() {
 		}
 		return strV{s: string(out)}, false
 	}
+	// reflect, minimal: a reflect.Value made by ValueOf is a box around the interface value (kept in the
+	// struct's pointer slot); Interface() unboxes it. Nothing else of reflect is modelled.
+	I["reflect.ValueOf"] = func(ex *Exec, th *Thread, fn *ssa.Function, a []Value) (Value, bool) {
+		return structV{a[0], a[0], ex.mkInt(1)}, false
+	}
+	I["(reflect.Value).Interface"] = func(ex *Exec, th *Thread, fn *ssa.Function, a []Value) (Value, bool) {
+		if sv, ok := a[0].(structV); ok && len(sv) == 3 {
+			if iv, ok := sv[1].(ifaceV); ok {
+				return iv, false
+			}
+		}
+		panic(unsupported("reflect.Value.Interface on a value not made by reflect.ValueOf"))
+	}
 	_ = 0
 	I["runtime.SetFinalizer"] = I["runtime.Gosched"]
 	I["internal/race.Enable"] = I["runtime.Gosched"]
